@@ -39,7 +39,19 @@ Pub(n, m) == [i \in 1..n |-> (i * m + 3) % 256]
 \* menu and every owner; the others with the RdSmall ones and (quick tier) the
 \* OwnersSmall ones (every transform and alteration all the same).
 RsaPub(m) == <<3, 1, 0, 1>> \o [i \in 1..256 |-> IF i = 1 THEN 200 ELSE (i * m + 3) % 256]
+\* an RSA key at the upper limit of RFC 3110 (modulus of 512 octets = 4096
+\* bits): a key the signer side signs with and the validator side must take.
+\* Quick tier: such a key (`Big`) meets the small RRsets / owners and every
+\* single transform and alteration, no stacked ones (a 4096 bit signature
+\* is expensive).
+RsaPubBig(m) == <<3, 1, 0, 1>> \o [i \in 1..512 |-> IF i = 1 THEN 166 ELSE (i * m + 5) % 256]
+Big(k) == k.alg \in RsaAlgs /\ Len(k.pub) > 400
 Keys ==
+  {[k |-> [flags |-> 256, proto |-> 3, alg |-> 8, pub |-> RsaPubBig(13)], owner |-> <<ex>>, route |-> "direct", wide |-> FALSE]}
+  \cup (IF Thorough THEN
+    {[k |-> [flags |-> 257, proto |-> 3, alg |-> 8, pub |-> RsaPubBig(13)], owner |-> <<Ex>>, route |-> "bind", wide |-> FALSE]}
+    ELSE {})
+  \cup
   {[k |-> [flags |-> 256, proto |-> 3, alg |-> 15, pub |-> Pub(32, 7)], owner |-> <<ex>>, route |-> "direct", wide |-> TRUE],
    [k |-> [flags |-> 257, proto |-> 3, alg |-> 13, pub |-> Pub(64, 251)], owner |-> <<Ex>>, route |-> "bind", wide |-> Thorough],
    [k |-> [flags |-> 256, proto |-> 3, alg |-> 8, pub |-> RsaPub(7)], owner |-> <<ex>>, route |-> "direct", wide |-> FALSE],
@@ -105,7 +117,7 @@ vars == <<key, keyOwner, kroute, orig, sig0, cur, sig, vkalg, sigflip, keyflip, 
 
 Init ==
   \E o \in Owners, rs \in RdSets, kk \in Keys, tm \in Times, ttl \in Ttls :
-     /\ kk.wide \/ (rs \in RdSmall /\ (Thorough \/ o \in OwnersSmall))
+     /\ kk.wide \/ (rs \in RdSmall /\ ((Thorough /\ ~Big(kk.k)) \/ o \in OwnersSmall))
      /\ key = kk.k /\ keyOwner = kk.owner /\ kroute = kk.route /\ vkalg = kk.k.alg
      /\ orig = MkRrs(o, rs, ttl)
      /\ sig0 = SignerFields(kk.k, kk.owner, orig, tm.inc, tm.exp)
@@ -114,7 +126,7 @@ Init ==
      /\ nops = 0 /\ altered = FALSE /\ last = "Sign"
 
 Same == UNCHANGED <<key, keyOwner, kroute, orig, sig0>>
-CanT == ~altered /\ nops < MaxT
+CanT == ~altered /\ nops < (IF Big(key) /\ ~Thorough THEN 1 ELSE MaxT)
 T(name) == /\ nops' = nops + 1 /\ last' = name /\ Same
            /\ UNCHANGED <<altered, sigflip, keyflip, vkalg>>
 
@@ -169,7 +181,8 @@ Convert ==
 
 (* alterations: exactly one, then the behaviour ends *)
 \* (quick tier: not on top of the "typed" / "chain" representations)
-CanA == ~altered /\ nops <= AltDepth /\ (Thorough \/ conv \notin {"typed", "chain"})
+CanA == ~altered /\ nops <= (IF Big(key) /\ ~Thorough THEN 0 ELSE AltDepth)
+        /\ (Thorough \/ conv \notin {"typed", "chain"})
 Alt(name) == /\ altered' = TRUE /\ last' = name /\ nops' = nops + 1 /\ Same
              /\ UNCHANGED <<compress, conv>>
 
@@ -253,6 +266,8 @@ SignerValidatorAgree ==
   /\ ValidatorOctets(sig0, orig) = SignedData(sig0, orig)
   /\ sig0.labels <= Len(orig[1].owner)              \* RFC 4034 3.1.3
   /\ sig0.alg = key.alg /\ key.alg \in SignAlgs
+  \* a key the signer signs with is a key the validator takes (sizes included)
+  /\ SignerAccepts(key) /\ ValidatorAccepts(key)
 \* the validator transcription is the RFC construction on whatever arrives
 ValidatorIsRfc == NoDuplicates(cur) => ValidatorOctets(sig, cur) = SignedData(sig, cur)
 TransformsPreserveSignedData ==
@@ -294,8 +309,24 @@ KsKeys == [flags : {256}, proto : {3}, alg : {5, 7, 8, 10}, pub : KsPubsRsa \cup
           \cup [flags : {257}, proto : {3}, alg : {16}, pub : {Pub(57, 11)}]
 \* RSA public key layout: exponents and moduli with and without leading
 \* zero octets, exponents of 255 / 256 octets (one- / three-octet length)
-RsaEs == {<<3>>, <<1, 0, 1>>, <<0, 0, 1, 0, 1>>, Mod(255, 1), Mod(256, 1), <<0>> \o Mod(256, 255)}
-RsaNs == {Mod(128, 200), <<0, 0>> \o Mod(128, 1), Mod(256, 255), Mod(127, 9), Mod(512, 128)}
+\* ... and both at the limits of RFC 3110 2 (1 .. 4096 bits, i.e. 1 .. 512
+\* octets): exponents of 1, 3, 4, 255, 256 (first three-octet length), 511,
+\* 512 and 513 octets, moduli of 64, 65, 128, 256, 511, 512, 513 octets
+RsaEs == {<<3>>, <<1, 0, 1>>, <<0, 0, 1, 0, 1>>, Mod(255, 1), Mod(256, 1), <<0>> \o Mod(256, 255),
+          <<1, 0, 0, 1>>, Mod(511, 3), Mod(512, 129), <<0>> \o Mod(512, 1), Mod(513, 1)}
+RsaNs == {Mod(128, 200), <<0, 0>> \o Mod(128, 1), Mod(256, 255), Mod(127, 9), Mod(512, 128),
+          Mod(64, 255), Mod(65, 1), Mod(511, 255), Mod(512, 1), <<0>> \o Mod(512, 255), Mod(513, 1), Mod(513, 128)}
+\* public key fields as they may arrive (not necessarily made by rsa_encode):
+\* sizes at and beyond the limits on both parts, one- and three-octet
+\* length forms, prohibited leading zero octets, for every RSA algorithm
+\* number; and the well-formed keys of the other algorithms
+KaPubs == {RsaEncode(e, n) : e \in {<<3>>, <<1, 0, 1>>, Mod(256, 1), Mod(512, 129), Mod(513, 1)},
+                             n \in {Mod(64, 255), Mod(127, 9), Mod(128, 200), Mod(256, 255), Mod(511, 255),
+                                    Mod(512, 1), Mod(512, 128), Mod(512, 255), Mod(513, 1), Mod(513, 128)}}
+          \cup {<<1, 0>> \o Mod(256, 255), <<1, 3, 0>> \o Mod(255, 255), <<0, 0, 3, 1, 0, 1>> \o Mod(256, 255),
+                <<0, 1, 0>> \o Mod(256, 1), <<3, 1, 0, 1>>, <<>>}
+KaKeys == [flags : {256}, proto : {3}, alg : {5, 7, 8, 10}, pub : KaPubs]
+          \cup {k \in KsKeys : k.alg \notin RsaAlgs}
 DsOwners == {<<>>, <<ex>>, <<A, eX>>, <<Star, Ex>>}
 First == nops = 0 /\ orig[1].owner = <<ex>> /\ orig[1].type = 6 /\ key.alg = 15
          /\ sig0.inc = <<0, 0, 0, 0>> /\ orig[1].ttl = 3600 /\ keyOwner = <<ex>>
@@ -310,8 +341,13 @@ EmitKeys == First =>
          dev |-> [D_key_size_panic |-> [panic |-> TRUE]]]))
   /\ \A e \in RsaEs : \A n \in RsaNs : \A min \in {128, 256} : PrintT("CASE " \o ToJson(
         [in |-> [kind |-> "rsa", e |-> e, n |-> n, min |-> min],
-         exp |-> [pub |-> RsaEncode(e, n), e |-> TrimZeros(e), n |-> TrimZeros(n),
-                  ok |-> Len(TrimZeros(n)) >= min]]))
+         exp |-> IF RsaInRange(e, n)
+                 THEN [pub |-> RsaEncode(e, n), e |-> TrimZeros(e), n |-> TrimZeros(n),
+                       ok |-> Len(TrimZeros(n)) >= min]
+                 ELSE [pub |-> RsaEncode(e, n), malformed |-> TRUE]]))
+  /\ \A k \in KaKeys : PrintT("CASE " \o ToJson(
+        [in |-> [kind |-> "keyaccept", key |-> k],
+         exp |-> [accept |-> ValidatorAccepts(k)]]))
   /\ \A x \in 0..255 : PrintT("CASE " \o ToJson(
         [in |-> [kind |-> "alg", alg |-> x, pub |-> <<1, 3>> \o Mod(128, 200)],
          exp |-> [verifiable |-> x \in VerifyAlgs, signable |-> x \in SignAlgs, claim_sound |-> TRUE]]))
@@ -352,8 +388,24 @@ KeyTagLaws == First => \A k \in KtKeys : KeyTag(k) \in 0..65535
 KeyLayoutLaws == First =>
   /\ \A e \in RsaEs : \A n \in RsaNs :
         LET p == RsaEncode(e, n)
-        IN /\ RsaWellFormed(p) /\ RsaExp(p) = TrimZeros(e) /\ RsaMod(p) = TrimZeros(n)
-           /\ KeySize([alg |-> 8, pub |-> p]) \in (8 * Len(TrimZeros(n)) - 7)..(8 * Len(TrimZeros(n)))
+        IN \* decode o encode = id exactly on the RFC range, reject outside
+           /\ RsaWellFormed(p) <=> RsaInRange(e, n)
+           /\ RsaInRange(e, n) =>
+                 /\ RsaExp(p) = TrimZeros(e) /\ RsaMod(p) = TrimZeros(n)
+                 /\ KeySize([alg |-> 8, pub |-> p]) \in (8 * Len(TrimZeros(n)) - 7)..(8 * Len(TrimZeros(n)))
+  \* both limits occur on both sides of the line
+  /\ \E e \in RsaEs : Len(e) = 512 /\ e[1] # 0
+  /\ \E n \in RsaNs : Len(n) = 512 /\ n[1] # 0
+  /\ \E e \in RsaEs : Len(TrimZeros(e)) = 513
+  /\ \E n \in RsaNs : Len(TrimZeros(n)) = 513
+  \* a public key field is accepted iff it is what rsa_encode makes of an
+  \* exponent and a modulus in range (of at least the backend's minimum)
+  /\ \A k \in KaKeys : k.alg \in RsaAlgs =>
+        (ValidatorAccepts(k) <=>
+           /\ RsaWellFormed(k.pub) /\ RsaEncode(RsaExp(k.pub), RsaMod(k.pub)) = k.pub
+           /\ Len(RsaMod(k.pub)) \in VerifyMinModOctets..512)
+  /\ \E k \in KaKeys : ValidatorAccepts(k) /\ k.alg = 8 /\ Len(RsaMod(k.pub)) = 512
+  /\ \E k \in KaKeys : ~ValidatorAccepts(k) /\ k.alg = 8 /\ Len(k.pub) > 513
   /\ \A p \in KsPubsRsa : RsaWellFormed(p) /\ RsaEncode(RsaExp(p), RsaMod(p)) = p
   /\ \A p \in KsPubsBad : ~RsaWellFormed(p)
   /\ SignAlgs \subseteq VerifyAlgs /\ \A x \in VerifyAlgs : SiblingAlg(x) # x
